@@ -42,6 +42,7 @@ static Case gen_case() {
   c.cfg.by_path = false;
   KeyUniverse u = gen_universe();
   c.entries = gen_table(c.cfg.eff_block_size(), 4 + current_size() * 2, /*allow_huge*/ chance(10), &u);
+  if (chance(3)) gen_big_values_in_big_blocks(c.cfg, c.entries);
   int nx = pick(0, 6);
   for (int i = 0; i < nx; i++) c.extra.push_back(chance(50) ? gen_small(u) : gen_key_bytes(u, false));
   c.qseed = (uint32_t)pick(1, 1 << 30);
